@@ -1,5 +1,6 @@
 import PyPhysim.Proofs.C16
 import PyPhysim.Proofs.C16Dmin
+import PyPhysim.Generated.C16Formulas
 
 /-!
 # C16 — theoretical error-rate curves
@@ -15,6 +16,28 @@ namespace PyPhysim.C16
 open PyPhysim.C01 Filter Topology
 
 variable {Q : ℝ → ℝ}
+
+/-! ### tie to the source: the formulas re-translated from `fundamental.py` on every run
+(`PyPhysim.Generated.C16`) are the model's formulas, as functions on ℝ.  A changed
+coefficient, argument or exponent in the source breaks this theorem. -/
+
+/-- PSK / BPSK / QAM SER and BER, PER and spectral efficiency as written in the current
+    source equal the model formulas all other theorems are about. -/
+theorem generated_formulas_match_model (Q : ℝ → ℝ) (M k L : Nat) (s ber K : ℝ) :
+    Generated.C16.pskSER Q M s = pskSER Q M s ∧
+    Generated.C16.pskBER Q M k s = pskBER Q M k s ∧
+    Generated.C16.bpskSER Q s = bpskSER Q s ∧
+    Generated.C16.bpskBER Q s = bpskSER Q s ∧
+    Generated.C16.qamSER Q M s = qamSER Q M s ∧
+    Generated.C16.qamBER Q M k s = qamBER Q M k s ∧
+    Generated.C16.per ber L = per ber L ∧
+    Generated.C16.spectralEff K ber = spectralEff K ber := by
+  refine ⟨?_, ?_, ?_, ?_, ?_, ?_, ?_, ?_⟩ <;>
+    simp only [Generated.C16.pskSER, Generated.C16.pskBER, Generated.C16.bpskSER, Generated.C16.bpskBER,
+      Generated.C16.qamPsc, Generated.C16.qamSER, Generated.C16.qamBER, Generated.C16.per,
+      Generated.C16.spectralEff, Generated.C16.dB2Linear, pskSER, pskBER, pskArg, bpskSER, bpskArg,
+      qamSER, qamBER, qamPsc, qamCoef, qamArg, per, spectralEff, db2lin] <;>
+    try ring
 
 /-! ### PSK -/
 
